@@ -69,6 +69,20 @@ WellFormed(r) ==
   \* continuation rows belong to the statistics row above them
   \cup Flag(\E i \in 1..Len(r.lines) : r.lines[i].t = "cont" /\
                (i = 1 \/ r.lines[i - 1].t = "empty"), "C20:continuation_row_without_benchmark")
+  \* ... and carry that row's glyphs: the same bars under the ancestors and a
+  \* bar in the row's own column exactly when the row has later siblings
+  \cup Flag(\E i \in 1..Len(r.lines) : r.lines[i].t = "cont" /\
+               LET S == {j \in RowIdx(r) : j < i} IN
+               S # {} /\
+               LET j == CHOOSE x \in S : \A y \in S : y <= x
+                   row == r.lines[j]
+                   d == DepthOf(row)
+                   g == r.lines[i].groups
+               IN d >= 1 /\
+                  (Len(g) < d
+                   \/ (\E k \in 1..Len(row.prefix) : g[k] # row.prefix[k])
+                   \/ ((g[d] = "bar") # (row.branch = "tee"))),
+             "C20:continuation_row_glyphs_do_not_match_its_benchmark")
 
 ObservedPaths(r) == [i \in RowIdx(r) |-> RowPath(r, i)]
 
@@ -320,7 +334,10 @@ TrSpec == Init /\ [][TrNext]_vars
 
 Prefixed(px) == {b \in bad : SubSeq(b, 1, 4) = px}
 Holds(px) == Prefixed(px) = {} /\ Prefixed("ALL:") = {}
-C12Holds == Holds("C12:") /\ Prefixed("C13:") = {} /\ Prefixed("C20:") = {}
+\* C12: the registry equals what was written (C12:), every registered case and nothing else
+\* appears in the tree under its display path (C13:, C20:), and each bench_group contributes
+\* its options to the benchmarks below it (ignored marks, thread counts, loop parameters: C15:)
+C12Holds == Holds("C12:") /\ Prefixed("C13:") = {} /\ Prefixed("C20:") = {} /\ Prefixed("C15:") = {}
 C13Holds == Holds("C13:")
 C14Holds == Holds("C14:")
 C15Holds == Holds("C15:")
